@@ -94,7 +94,15 @@ pub mod kvapp {
                 Event::KvExists { api: Api::Command, key } => Kv::exists(key).then_send(Event::Status),
                 Event::KvList { api: Api::Capability, prefix, cursor } => { caps.key_value.list_keys(prefix, cursor, Event::Keys); Command::done() }
                 Event::KvList { api: Api::Command, prefix, cursor } => Kv::list_keys(prefix, cursor).then_send(Event::Keys),
+                Event::Http { which, body } if which >= 128 => {
+                    // capability API
+                    let url = format!("https://example.com/c{}", which);
+                    let b = match which % 3 { 0 => caps.http.get(url), 1 => caps.http.post(url), _ => caps.http.put(url) };
+                    b.header("x-k", format!("v{}", which)).body_bytes(body).send(Event::HttpDone);
+                    Command::done()
+                }
                 Event::Http { which, body } => {
+                    // command API
                     let url = format!("https://example.com/p{}", which);
                     let b = match which % 3 {
                         0 => crux_http::command::Http::get(url),
@@ -241,6 +249,10 @@ pub mod malapp {
         Watch { tag: u32 },
         Note { text: String, #[serde(with = "serde_bytes")] blob: Vec<u8>, nums: Vec<u32>, flag: Option<bool> },
         Render,
+        /// work sequenced after a request: ask, then (whatever became of the first) ask again and render
+        Chain { tag: u32 },
+        /// two requests side by side, a third one after both
+        Fork { tag: u32 },
         #[serde(skip)] Got(u32, Answer),
         #[serde(skip)] Ticked(u32, Tick),
     }
@@ -278,6 +290,20 @@ pub mod malapp {
                     Command::done()
                 }
                 MalEvent::Render => crux_core::render::render(),
+                MalEvent::Chain { tag } => {
+                    let ask = |t: u32, text: &str| -> Command<Effect, MalEvent> {
+                        Command::request_from_shell(AskOp { tag: t, text: text.to_string() }).then_send(move |a| MalEvent::Got(t, a))
+                    };
+                    model.lines.push(Line::Asked(tag));
+                    ask(tag, "first").then(ask(tag.wrapping_add(1), "second")).then(crux_core::render::render())
+                }
+                MalEvent::Fork { tag } => {
+                    let ask = |t: u32, text: &str| -> Command<Effect, MalEvent> {
+                        Command::request_from_shell(AskOp { tag: t, text: text.to_string() }).then_send(move |a| MalEvent::Got(t, a))
+                    };
+                    model.lines.push(Line::Asked(tag));
+                    Command::all([ask(tag, "left"), ask(tag.wrapping_add(1), "right")]).then(ask(tag.wrapping_add(2), "after both"))
+                }
                 MalEvent::Got(tag, a) => { model.lines.push(Line::Got(tag, a)); crux_core::render::render() }
                 MalEvent::Ticked(tag, t) => { model.lines.push(Line::Tick(tag, t)); Command::done() }
             }
